@@ -24,6 +24,22 @@ for ln in open(sys.argv[1],errors='replace'):
     if e.get('Test') and e.get('Action') in('pass','fail','skip'):
         res[e['Package']+'::'+e['Test']]=e['Action']
 missing=[t for t in sorted(want) if res.get(t)!='pass']
+# tests that bind fixed ports (test/server) can collide with other processes on a busy
+# machine: re-run the packages of non-passing tests alone, up to twice
+import subprocess,os
+for attempt in range(2):
+    if not missing: break
+    pkgs=sorted({t.split('::')[0] for t in missing})
+    for pkg in pkgs:
+        rel='./'+pkg[len('github.com/bmeg/grip/'):] if pkg!='github.com/bmeg/grip' else '.'
+        out=subprocess.run(['go','test','-json','-vet=off','-count=1','-timeout','25m',rel],cwd=os.environ.get('VERIF_REPO','/repo'),capture_output=True,text=True).stdout
+        for ln in out.splitlines():
+            try: e=json.loads(ln)
+            except Exception: continue
+            if e.get('Test') and e.get('Action') in('pass','fail','skip'):
+                k=e['Package']+'::'+e['Test']
+                if e['Action']=='pass' or res.get(k)!='pass': res[k]=e['Action']
+    missing=[t for t in sorted(want) if res.get(t)!='pass']
 print("baseline: %d/%d stable tests pass" % (len(want)-len(missing), len(want)))
 for t in missing: print("  NOT PASSING:", t, res.get(t))
 sys.exit(1 if missing else 0)
